@@ -217,7 +217,9 @@ class TreeStorage(BaseStorage):
         if leaf_id not in data_reservoir:
             data_reservoir[leaf_id] = GeometricReservoirStorage(
                 size=self._leaf_reservoir_length, store_targets=False, constant_probability=1.0)
-            self._delete_outdated_reservoirs(feature_name, root_node)
+        # an adaptive tree can be restructured (e.g. an alternate subtree is swapped in) while the current point is
+        # routed to a leaf id that already exists, so outdated reservoirs have to be looked for on every update
+        self._delete_outdated_reservoirs(feature_name, root_node)
         data_reservoir[leaf_id].update(x)
 
     def __call__(self, feature_name: Any) -> Tuple[Union[HoeffdingTreeRegressor, HoeffdingTreeClassifier], str]:
